@@ -4,7 +4,7 @@ CONSTANTS
   Lookback = 4
   Mut = "none"
   EmitRows = TRUE
-  NSlices = 8
+  NSlices = 32
   Slice = 1
 INVARIANTS D_Design Emit
 CHECK_DEADLOCK FALSE
